@@ -4,7 +4,7 @@
             followed by characters of the rest class) and is not a keyword (keywords::is_keyword: ASCII upper-casing,
             then membership in the common union or in the dialect's own list); otherwise -- and always for
             dialects with IdentQuotingStyle::AlwaysQuoted -- the dialect's quote character around sqlparser's
-            Ident Display (Model/Escape.v: emit_quoted).
+            Ident Display of the name with its quote characters doubled (Model/Escape.v: emit_ident_quoted).
      read : Model/SqlLex.v tokens; a bare word denotes its case-folded spelling, a quoted identifier its content.
    The character classes, the keyword lists and the per-dialect quote characters are parameters, instantiated
    with Gen/GenKeywords.v and Gen/GenIdentDialect.v.  Executable definitions only. *)
@@ -36,9 +36,9 @@ Definition is_keyword (common extra : list str) (s : str) : bool :=
 Record identd := { iq : N; always_quoted : bool; extra_kw : list str }.
 
 Definition emit_ident (start rest : list (N * N)) (common : list str) (d : identd) (s : str) : str :=
-  if always_quoted d then emit_quoted (iq d) s
+  if always_quoted d then emit_ident_quoted (iq d) s
   else if valid_ident start rest s && negb (is_keyword common (extra_kw d) s) then s
-  else emit_quoted (iq d) s.
+  else emit_ident_quoted (iq d) s.
 
 Definition is_bare (start rest : list (N * N)) (common : list str) (d : identd) (s : str) : bool :=
   negb (always_quoted d) && valid_ident start rest s && negb (is_keyword common (extra_kw d) s).
@@ -83,7 +83,7 @@ Definition class_all (P : N -> bool) (cls : list (N * N)) : bool :=
   forallb (fun r => forallb P (nrange (fst r) (snd r))) cls.
 
 Definition classes_ok (start rest : list (N * N)) : bool :=
-  class_all (fun c => is_alpha c || (c =? 36)) start &&      (* a letter or _ ; $ is the known exception (F32) *)
+  class_all is_alpha start &&                                 (* a letter or _ ; in particular not $ (F32, fixed) *)
   class_all is_wordc rest &&
   class_all (fun c => lower_ascii_c c =? c) start && class_all (fun c => lower_ascii_c c =? c) rest.
 
